@@ -6,6 +6,9 @@ from harness.props import clcommon as cl
 ID = "C15"
 CHECK_MODULE = "Changelog.Check"
 PROPS_FILE = "Props/C15.v"
+# the printer (ChangeBlock._format / Changelog._format / __str__), add_change and add_trailing_line are regenerated from
+# the source and tied to the model in coq/Props/C04Tie.v (spec: harness/props/clcommon.py TR_BLOCK / TR_MODULE)
+TIE_FILE = "Props/C04Tie.v"
 ANCHORS = [("lib/debian/changelog.py",
             ["parse_changelog", "_format", "_parse_error", "new_block", "add_change", "__init__",
              "topline", "blankline", "changere", "endline", "endline_nodetails", "keyvalue", "value_re",
@@ -27,7 +30,12 @@ RULE = ("two thirds: texts obtained from grammar-generated well-formed changelog
         "distributions / urgency / author / date) on Changelog() or on a parsed well-formed or mutated changelog, with "
         "values inside and outside their documented domains; str() of the result is parsed again.  A few regex-leaf "
         "cases.  non-trivial = the lenient parse produced a block, or the script ran at least one call")
-TRUSTED = ["model coq/Changelog/Model.v is a hand transcription of Changelog.parse_changelog / _format / new_block / "
+TRUSTED = ["tie by regeneration (coq/Props/C04Tie.v): parse_changelog / _parse_error / __init__ / ChangeBlock._format / "
+           "Changelog._format / __str__ / add_change / add_trailing_line are regenerated from the source (harness/py2coq.py) and "
+           "proved equal to the model for all inputs; trusted there: the translator, coq/Lib/Tr.v, the primitives of "
+           "coq/Changelog/TrPrims.v and TrPrimsParse.v (regex leaves = the model's leaves, str/list/dict methods, "
+           "ChangeBlock() = empty_block, attribute stores as record updates, warnings as kinds) and the types in clcommon.py",
+           "model coq/Changelog/Model.v is a hand transcription of Changelog.parse_changelog / _format / new_block / "
            "add_change / the attribute setters (seven regex leaves included); tied to the code only by this correspondence",
            "the thirteen junk patterns (emacs/vim/cvs/comments/old_format_re1-8) are not modelled: per-case "
            "line->flags tables are computed by the harness from the live compiled patterns (the theorems hold for "
